@@ -582,6 +582,23 @@ def rule_str_tail(text, ctx):
     return re.sub(r'unsafe \{ ([\w\.\(\)]+?)\.get_unchecked\(([\w\.]+)\.\.\) \}\.chars\(\)', f, text)
 
 
+def rule_collect_results(text, ctx):
+    """R27: `let patvals: Vec<_> = patterns.into_iter().enumerate().map(|(i, p)| V::try_from(i).map(|i| (p, i)))
+            .collect::<Result<_, _>>().map_err(|_| E)?;`
+       -> an explicit loop: `let mut patvals = Vec::new(); let mut verif_i: usize = 0;
+            for p in patterns { match V::try_from(verif_i) { Ok(v) => { patvals.push((p, v)); } Err(_) => { return Err(E); } } verif_i += 1; }`
+       (definitions of enumerate / map / collect::<Result<_,_>> / map_err / `?`: stop at the first failing conversion)"""
+    m = re.search(r'let patvals: Vec<_> = patterns\s*\.into_iter\(\)\s*\.enumerate\(\)\s*\.map\(\|\(i, p\)\| V::try_from\(([^()]*)\)\.map\(\|i\| \(p, i\)\)\)\s*'
+                  r'\.collect::<Result<_, _>>\(\)\s*\.map_err\(\|_\| (DaachorseError::\w+\([^()]*\))\)\?;', text)
+    if not m:
+        return text
+    arg = re.sub(r'\bi\b', 'verif_i', m.group(1))   # the argument of the conversion, over the position
+    new = ('let mut patvals = Vec::new(); let mut verif_i: usize = 0; '
+           'for p in patterns { match V::try_from(%s) { Ok(v) => { patvals.push((p, v)); } Err(_) => { return Err(%s); } } verif_i += 1; }' % (arg, m.group(2)))
+    ctx.note('R27', m.group(0), new)
+    return text[:m.start()] + new + text[m.end():]
+
+
 def rule_into_iter(text, ctx):
     """R22: `for PAT in patvals {` (a by-value generic `I: IntoIterator` parameter) -> `for PAT in verif_into_iter(patvals) {`
     (external_body wrapper, body = `patvals.into_iter()`, which is what the `for` desugaring calls)"""
@@ -751,10 +768,17 @@ def apply_fn(text, spec, ctx, assoc_types=None, canary=False):
         text = rule_sort_pairs(text, ctx)
     if 'R20' in spec.rules:
         text = rule_vec_ref_iter(text, ctx)
+    if 'R27' in spec.rules:
+        text = rule_collect_results(text, ctx)
     if 'R22' in spec.rules:
         text = rule_into_iter(text, ctx)
     if 'R23' in spec.rules:
         text = rule_mut_self(text, ctx)
+    if 'R23b' in spec.rules:
+        # callers of a function rewritten by R23 (it is an associated function now)
+        if 'self.build_with_values(' in text:
+            ctx.note('R23b', 'self.build_with_values(patvals)', 'Self::build_with_values(self, patvals)')
+            text = text.replace('self.build_with_values(', 'Self::build_with_values(self, ')
     if 'R24' in spec.rules:
         text = rule_str_tail(text, ctx)
     if 'R25' in spec.rules:
